@@ -47,10 +47,17 @@ pub struct M {
 struct AStat {
     pre_fail: AtomicBool,
     post_fail: AtomicBool,
-    gates: [Gate; 4],
+    pre_stop_fail: AtomicBool,
+    post_stop_fail: AtomicBool,
+    /// the actor value's Drop is journalled and parks at `gates[DROP_GATE]`
+    hold_drop: AtomicBool,
+    /// one gate per hook, plus the gate of the actor value's Drop
+    gates: [Gate; 5],
     /// activations (hooks + handlers) of this actor alive right now
     gauge: AtomicI32,
 }
+
+const DROP_GATE: usize = 4;
 
 struct MStat {
     gate: Gate,
@@ -152,6 +159,20 @@ impl TA {
     }
 }
 
+/// The actor VALUE outlives the delivery of a start failure to the spawner: it is dropped when the
+/// worker-side task finishes. With `hold_drop` the harness owns that window (the Drop parks the
+/// worker thread at a gate until the harness opens it).
+impl Drop for TA {
+    fn drop(&mut self) {
+        let st = &self.w.actors[self.id];
+        if st.hold_drop.load(Ordering::SeqCst) {
+            self.w.log(self.id, EvK::ValueDropBegin);
+            st.gates[DROP_GATE].wait_blocking();
+            self.w.log(self.id, EvK::ValueDropEnd);
+        }
+    }
+}
+
 impl Actor for TA {
     type Arguments = ();
     type Error = u32;
@@ -168,11 +189,13 @@ impl Actor for TA {
     }
 
     async fn pre_stop(&self, _myself: &Mailbox<Self>, _state: &mut ()) -> Result<(), u32> {
-        self.hook(Hook::PreStop, false, 0).await
+        let fail = self.w.actors[self.id].pre_stop_fail.load(Ordering::SeqCst);
+        self.hook(Hook::PreStop, fail, c19m::code_pre_stop(self.id)).await
     }
 
     async fn post_stop(&self, _myself: &Mailbox<Self>, _state: &mut ()) -> Result<(), u32> {
-        self.hook(Hook::PostStop, false, 0).await
+        let fail = self.w.actors[self.id].post_stop_fail.load(Ordering::SeqCst);
+        self.hook(Hook::PostStop, fail, c19m::code_post_stop(self.id)).await
     }
 }
 
